@@ -3,11 +3,11 @@ only on fit and paired with this embedding's accumulator, static fit rule, swap/
 The number of embeddings for a given call tree is NOT decided."""
 import ast
 
-from ..astq import is_name, kwarg, returns_of
-from ..core import AnalysisError, norm, walk_local
+from ..astq import conds, expand, is_name, kwarg, returns_of, single_defs
+from ..core import AnalysisError, norm, order, walk_local
 from ..pairing import contextvars_of
 from .c05 import token_sites
-from .c07 import guards
+from .proceed_shape import proceed_shape
 
 
 def run(repo, chk):
@@ -28,44 +28,38 @@ def run(repo, chk):
     chk.rule("R03.3", "static fit: function element, named captures in the variable table (meta exempt), generic captures match at least one variable; memo keyed by (fn, selector) with None/False distinguished", 6)
     chk.rule("R03.4", "activation entry installs the callee's collection, exit restores the caller's with the same token", 2)
 
-    pr = repo.func("overlay.HandlerCollection.proceed")
-    loops = [n for n in walk_local(pr.node) if isinstance(n, ast.For) and norm(n.iter) == "self.handler_pairs"]
-    if len(loops) != 1:
-        raise AnalysisError("overlay.HandlerCollection.proceed: loop over self.handler_pairs not found")
-    loop = loops[0]
+    P = proceed_shape(repo)
+    pr, loop, sel, acc, inner, fitvar, fit_lit, keeps, pushes, child_loops, others, r = P.pr, P.loop, P.sel, P.acc, P.inner, P.fitvar, P.fit_lit, P.keeps, P.pushes, P.child_loops, P.others, P.ret
     # ---------------- R03.1
-    keeps = [c for c in ast.walk(loop) if isinstance(c, ast.Call) and norm(c.func) == "next_selectors.append"]
-    ok = len(keeps) == 1 and guards(keeps[0], loop) == ["not selector.immediate"] and norm(keeps[0].args[0]) == "(selector, acc)"
+    ok = inner is not None and len(keeps) == 1 and conds(keeps[0], loop) == [f"not {sel}.immediate"]
     chk.ob("R03.1", "overlay.HandlerCollection.proceed:keep-unless-immediate", ok, pr.where,
-           f"every non-immediate selector is carried into the callee unchanged, with its accumulator (guards: {guards(keeps[0], loop) if keeps else 'no append'})")
-    fit_tests = [n for n in ast.walk(loop) if isinstance(n, ast.If) and norm(n.test) == "capmap is not False"]
-    ok = len(fit_tests) == 1 and bool(keeps) and keeps[0].lineno < fit_tests[0].lineno
-    chk.ob("R03.1", "overlay.HandlerCollection.proceed:kept-before-and-regardless-of-fit", ok, pr.where, "the selector is kept before, and independently of, the test whether it fits this function")
+           f"every non-immediate selector is carried into the callee unchanged, with its accumulator (conditions: {conds(keeps[0], loop) if keeps else 'no append'})")
+    ok = bool(keeps) and bool(pushes) and fit_lit not in conds(keeps[0], loop) and order(keeps[0]) < min(order(c) for c in pushes)
+    chk.ob("R03.1", "overlay.HandlerCollection.proceed:kept-before-and-regardless-of-fit", ok, pr.where, "the selector is kept before its children are pushed, and independently of the test whether it fits this function")
     # ---------------- R03.2
-    if len(fit_tests) == 1:
-        ft = fit_tests[0]
-        exts = [c for c in ast.walk(loop) if isinstance(c, ast.Call) and norm(c.func) == "next_selectors.extend"]
-        ok = len(exts) == 1 and any(exts[0] is x for s in ft.body for x in ast.walk(s))
-        chk.ob("R03.2", "overlay.HandlerCollection.proceed:children-only-on-fit", ok, pr.where, "the children of a selector level are pushed only when the level fits the function being entered")
-        ok = len(exts) == 1 and isinstance(exts[0].args[0], ast.GeneratorExp) and norm(exts[0].args[0].elt) == "(child, acc)" and norm(exts[0].args[0].generators[0].iter) == "selector.children"
-        chk.ob("R03.2", "overlay.HandlerCollection.proceed:children-paired-with-acc", ok, pr.where, "each child selector is paired with the accumulator of this embedding")
-        forks = [n for n in ast.walk(ft) if isinstance(n, ast.Assign) and norm(n) == "acc = acc.fork()"]
-        ok = len(forks) == 1 and guards(forks[0], ft) == ["selector.focus or is_template"] and bool(exts) and forks[0].lineno < exts[0].lineno
-        chk.ob("R03.2", "overlay.HandlerCollection.proceed:fork-on-focus-or-template", ok, pr.where,
-               "the accumulator is forked (before it is registered and before the children are pushed) when the level holds the focus or is the user's template: each embedding keeps its own focus captures")
-        regs = [c for c in ast.walk(ft) if isinstance(c, ast.Call) and norm(c.func) == "itor.register"]
-        ok = len(regs) == 1 and [norm(a) for a in regs[0].args[:2]] == ["acc", "capmap"] and bool(forks) and forks[0].lineno < regs[0].lineno
-        chk.ob("R03.2", "overlay.HandlerCollection.proceed:register-forked-acc-with-capmap", ok, pr.where, "the (forked) accumulator is registered in this call's interactor for exactly the variables of the fit")
-    r = returns_of(pr.node)
-    ok = len(r) == 1 and norm(r[0].value) == "(itor, rval)" and any(isinstance(n, ast.Assign) and norm(n) == "rval = HandlerCollection(next_selectors)" for n in walk_local(pr.node))
+    ok = fitvar is not None and len(pushes) == 1 and conds(pushes[0], loop) == [fit_lit] and not others
+    chk.ob("R03.2", "overlay.HandlerCollection.proceed:children-only-on-fit", ok, pr.where,
+           f"the children of a selector level are pushed exactly when the level fits the function being entered (conditions: {conds(pushes[0], loop) if pushes else 'no push'}; other writers of the list: {len(others)})")
+    ok = len(pushes) == 1 and len(child_loops) == 1 and norm(pushes[0].args[0]) == f"({child_loops[0].target.id}, {acc})" and conds(pushes[0], child_loops[0]) == []
+    chk.ob("R03.2", "overlay.HandlerCollection.proceed:children-paired-with-acc", ok, pr.where, "each child selector (every one of them) is paired with the accumulator of this embedding")
+    forks, fork_conds = P.forks, P.xconds
+    ok = len(forks) == 1 and bool(pushes) and fork_conds(forks[0]) == [fit_lit, f"{acc}.template or {sel}.focus"] and order(forks[0]) < order(pushes[0])
+    chk.ob("R03.2", "overlay.HandlerCollection.proceed:fork-on-focus-or-template", ok, pr.where,
+           "the accumulator is forked (before it is registered and before the children are pushed) when the level holds the focus or is the user's template: each embedding keeps its own focus captures"
+           + (f" (conditions: {fork_conds(forks[0])})" if forks else ""))
+    regs = P.regs
+    ok = len(regs) == 1 and [norm(a) for a in regs[0].args[:2]] == [acc, str(fitvar)] and conds(regs[0], loop) == [fit_lit] and bool(forks) and order(forks[0]) < order(regs[0])
+    chk.ob("R03.2", "overlay.HandlerCollection.proceed:register-forked-acc-with-capmap", ok, pr.where, "the (forked) accumulator is registered in this call's interactor for exactly the variables of the fit")
+    ok = inner is not None and len(P.inits) == 1 and order(P.inits[0]) < order(loop) and P.itor is not None
     chk.ob("R03.2", "overlay.HandlerCollection.proceed:returns-inner-collection", ok, pr.where, "the collection for the callee's body is exactly the kept selectors plus the pushed children")
     # ---------------- R03.3
-    memo_get = [n for n in ast.walk(loop) if isinstance(n, ast.Assign) and norm(n) == "capmap = _selector_fit_cache.get(cachekey)"]
-    key = [n for n in ast.walk(loop) if isinstance(n, ast.Assign) and norm(n) == "cachekey = (fn, selector)"]
-    miss = [n for n in ast.walk(loop) if isinstance(n, ast.If) and norm(n.test) == "capmap is None"]
-    ok = bool(memo_get) and bool(key) and len(miss) == 1 and "capmap = fits_selector(fn, selector)" in " ".join(norm(s) for s in miss[0].body)
-    stores = [n for n in ast.walk(loop) if isinstance(n, ast.Assign) and norm(n.targets[0]).startswith("_selector_fit_cache[")]
-    ok = ok and all(norm(n) == "_selector_fit_cache[cachekey] = capmap" and any(n is x for b in miss[0].body for x in ast.walk(b)) for n in stores)
+    gets = [n for n in ast.walk(loop) if isinstance(n, ast.Assign) and len(n.targets) == 1 and is_name(n.targets[0], str(fitvar))
+            and expand(n.value, pr.node) == f"_selector_fit_cache.get(({P.fn}, {sel}))"]
+    computes = [n for n in ast.walk(loop) if isinstance(n, ast.Assign) and len(n.targets) == 1 and is_name(n.targets[0], str(fitvar)) and norm(n.value) == f"fits_selector({P.fn}, {sel})"]
+    stores = [n for n in ast.walk(pr.node) if isinstance(n, (ast.Assign, ast.AugAssign)) and any(norm(t).startswith("_selector_fit_cache[") for t in (n.targets if isinstance(n, ast.Assign) else [n.target]))]
+    ok = len(gets) == 1 and len(computes) == 1 and conds(computes[0], loop) == [f"{fitvar} is None"] and order(gets[0]) < order(computes[0]) \
+        and all(isinstance(n, ast.Assign) and expand(n.targets[0], pr.node) == f"_selector_fit_cache[{P.fn}, {sel}]" and norm(n.value) == fitvar and order(n) > order(computes[0])
+                and conds(n, loop) == [f"{fitvar} is None"] for n in stores)
     chk.ob("R03.3", "overlay.HandlerCollection.proceed:memo", ok, pr.where,
            "the fit is looked up per (function, selector); a miss (None) is computed by fits_selector (and, if stored, stored under the same key), False means 'does not fit'")
     fs = repo.func("overlay.fits_selector")
